@@ -1,5 +1,6 @@
 mod common;
 mod p_batched;
+mod p_chat;
 mod p_coo;
 mod p_cstr;
 mod p_dict;
@@ -42,6 +43,7 @@ fn component(name: &str) -> (ExecFn, GenFn) {
         "cstr" => (p_cstr::exec, p_cstr::gen),
         "proc" => (p_proc::exec, p_proc::gen),
         "post" => (p_post::exec, p_post::gen),
+        "chat" => (p_chat::exec, p_chat::gen),
         "ws" => (p_ws::exec, p_ws::gen),
         "bpetrain" => (p_bpetrain::exec, p_bpetrain::gen),
         "tok" => (p_tok::exec, p_tok::gen),
